@@ -18,9 +18,12 @@ LEVEL = "exploration"
 def run(v, workdir, replay):
     v.rule = ("case = one successful transaction execution (decided or trial) compared key-by-key with the reference ledger model, or "
               "one block boundary; distinct non-trivial = distinct (action kinds of the tx, fee asset class, amount class, outcome) cells")
-    v.assumptions = ["fee schedule is read from the raw state bytes before the transaction", "IBC mint/burn is not in this profile (C18)"]
+    v.assumptions = ["fee schedule is read from the raw state bytes before the transaction", "incoming ICS-20 packets, acknowledgements and time-outs run between blocks; their effect on balances+escrow is judged per handler against the source/sink rule (the per-channel escrow ledger itself is C18)"]
     hists = chainlog.run_chain(v, workdir, "ledger")
     check(v, hists)
+    v.need("ibc_packets_checked", 100)
+    v.need("ibc_mints", 5)
+    v.need("ibc_refunds_from_escrow", 3)
     v.need("transactions_checked", 400 if v.tier == "quick" else 10000)
     v.need("blocks_checked", 150)
     v.need("fee_events_checked", 400)
@@ -82,6 +85,8 @@ def check(v, hists):
         for o in chainlog.walk(h, on_block_end=on_end, on_block_begin=on_begin):
             if o.tx is not None and any(int(a["amount"]) >= chainlog.U128_MAX - 8 for a in o.tx.get("actions", []) if "amount" in a):
                 v.saw("near_max_attempts")
+            if o.where == "packet" and o.tx is not None:
+                packet_conservation(v, o, box)
             if o.result != "ok" or o.tx is None or o.where == "packet":
                 # a transaction whose exact fee exceeds u128 must fail; failures are fine here
                 continue
@@ -143,3 +148,56 @@ def check(v, hists):
                 v.violate("C01/ledger-effect-mismatch/" + "+".join(who_off), "balance/escrow/fee changes of a successful transaction differ from the reference ledger model", wit)
             elif len(v.samples) < 4 and len(kinds) >= 2:
                 v.sample({"actions": kinds, "fees": [(n[0].split(".")[-1], str(n[2])) for n in exp_fees], "effects": len(act)})
+
+
+ACK_OK = __import__("hashlib").sha256(b'{"result":"AQ=="}').hexdigest()
+
+
+def packet_conservation(v, o, box):
+    """ICS-20 packet handlers (receive, acknowledgement, time-out) between blocks: balances + escrow may change only by what the
+    source / sink rule mints: a voucher for a foreign token coming in, or the voucher burned by a withdrawal that is refunded.
+    Returning sequencer-origin tokens and refunds of escrowed tokens only move value from escrow to an account (net zero)."""
+    p = o.tx["packet"]
+    v.saw("ibc_packets_checked")
+    if not o.tx.get("applied") or o.result != "ok":
+        return
+    act = chainlog.actual_effects(o.diff)
+    net = collections.Counter()
+    for (who, asset), n in act.items():
+        if who != "~fees":
+            net[asset] += n
+    try:
+        amount = int(p["amount"])
+    except ValueError:
+        amount = 0      # an unparsable amount cannot be applied: the handler must acknowledge with an error and move nothing
+    allowed = collections.Counter()
+    assets = box["assets"]
+    if p["handler"] == "recv":
+        acks = [new for k, (old, new) in o.diff.items() if k.startswith("ibc-data/acks/")]
+        if len(acks) == 1 and acks[0] == ACK_OK:
+            prefix = "transfer/%s/" % p["remote_channel"]
+            if p["denom"].startswith(prefix):
+                v.saw("ibc_unescrow_on_receive")
+            else:
+                trace = "transfer/%s/%s" % (p["local_channel"], p["denom"])
+                asset = chainlog.ibc_id(trace)
+                if (trace, asset) not in assets:
+                    assets.append((trace, asset))
+                allowed[asset] = amount
+                v.saw("ibc_mints")
+    elif p["handler"] != "ack_success":
+        trace = chainlog.trace_of(assets, p["denom"])
+        if trace is None:
+            raise runner.Inconclusive("refund of unknown denom " + p["denom"])
+        if trace.startswith("transfer/%s/" % p["local_channel"]):
+            allowed[chainlog.ibc_id(trace)] = amount     # the voucher burned on the way out is minted again
+            v.saw("ibc_refunds_reminting_a_burned_voucher")
+        else:
+            v.saw("ibc_refunds_from_escrow")
+            if p.get("memo"):
+                v.saw("ibc_refunds_from_escrow_to_a_rollup")
+    for a in set(net) | set(allowed):
+        if net[a] != allowed[a]:
+            v.violate("C01/value-created-or-destroyed-by-ibc-packet/%s" % p["handler"],
+                      "asset %s: balances+escrow changed by %d in an ICS-20 %s handler, the source/sink rule allows %d" % (a[:14], net[a], p["handler"], allowed[a]),
+                      {"hist": list(o.hist), "height": o.height, "packet": p, "actual": {"%s|%s" % k: str(x) for k, x in act.items()}})
